@@ -84,7 +84,7 @@ def r03_2(ctx, rr):
         rr.check(ok, "EliasFanoIterator::next:merge", "EliasFanoIterator::next must yield `((word_idx * BITS + bit - index) << ef.l) | next low bits`; found %s" % tshow(t)[:300], F.loc(n))
 
 
-@rule("R03.3", props=["C03", "C11", "C13"], floor=4, title="both Elias-Fano builders compute l and size the low/high parts by the same documented formula")
+@rule("R03.3", props=["C03", "C11", "C13", "C04", "C12"], floor=4, title="both Elias-Fano builders compute l and size the low/high parts by the same documented formula")
 def r03_3(ctx, rr):
     F = ctx.F()
     seq = F.one(r"^dict::elias_fano::EliasFanoBuilder::new$")
